@@ -428,3 +428,99 @@ func TestC03_Schedules(t *testing.T) {
 		})
 	}
 }
+
+// TestC03_ExhaustiveOrders (thorough tier): n=3, t=2, all three keypers
+// triggered; every one of the 720 orders of the six share deliveries, with
+// keys messages delivered eagerly (as soon as published) or deferred (after
+// all shares), for one and two identities, per flavour.
+func TestC03_ExhaustiveOrders(t *testing.T) {
+	rec := recorder("C03")
+	if !thorough() {
+		t.Skip("thorough tier only")
+	}
+	rec.AddRule("exhaustive (thorough tier): n=3 t=2, all keypers triggered, all 720 orders of the six (share message, receiver) deliveries x keys messages delivered eagerly / deferred x 1 or 2 identities x flavour")
+	type pair struct{ from, to int }
+	var pairs []pair
+	for f := 0; f < 3; f++ {
+		for to := 0; to < 3; to++ {
+			if f != to {
+				pairs = append(pairs, pair{f, to})
+			}
+		}
+	}
+	idx := 0
+	for _, fl := range []flavour{flCore, flService, flGnosis} {
+		for _, nid := range []int{1, 2} {
+			for _, eager := range []bool{true, false} {
+				for _, order := range perms(6) {
+					idx++
+					if !mySlice(idx) {
+						continue
+					}
+					var set [][]byte
+					for k := 0; k < nid; k++ {
+						id := make([]byte, fl.identityLen())
+						if fl == flGnosis && k == 0 {
+							id[50], id[51] = 1, 0xf4
+						} else {
+							for j := range id {
+								id[j] = byte(0x40 + k)
+							}
+						}
+						set = append(set, id)
+					}
+					var failSig, failMsg string
+					sim := newC03Sim(fl, 3, 2, [][][]byte{set}, func(sig, f string, a ...any) {
+						if failSig == "" {
+							failSig, failMsg = sig, fmt.Sprintf(f, a...)
+						}
+					})
+					deliverKeys := func() {
+						for progress := true; progress && failSig == ""; {
+							progress = false
+							for k, p := range sim.Pending {
+								if !p.IsShares {
+									sim.deliver(k, false)
+									progress = true
+									break
+								}
+							}
+						}
+					}
+					for nd := 0; nd < 3 && failSig == ""; nd++ {
+						sim.trigger(nd, 0)
+					}
+					for _, oi := range order {
+						if failSig != "" {
+							break
+						}
+						pr := pairs[oi]
+						for k, p := range sim.Pending {
+							if p.IsShares && p.From == pr.from && p.To == pr.to {
+								sim.deliver(k, false)
+								break
+							}
+						}
+						if eager {
+							deliverKeys()
+						}
+					}
+					deliverKeys()
+					if failSig == "" {
+						sim.finalOracle(map[int][]int{0: {0, 1, 2}})
+					}
+					sim.Close()
+					desc := fmt.Sprintf("%s ids=%d eager=%v order=%v", fl, nid, eager, order)
+					if failSig != "" {
+						p := rec.SaveReplay(t.Name(), fmt.Sprintf("order-%d", idx), map[string]any{"flavour": fl, "identities": nid, "eager": eager, "order": order, "history": sim.history()})
+						rec.Violation(failSig, failMsg, p)
+						t.Errorf("VERIF-FAIL signature=%s :: %s", failSig, failMsg)
+						return
+					}
+					rec.Case(desc, sim.LateCompletion, "exhaustive-order")
+				}
+			}
+		}
+	}
+	rec.Exhaustive()
+}
